@@ -176,7 +176,10 @@ def smplOf (g : GenSample) : Option Smpl :=
     let base : Int := match g.note with
       | some n => (Smpl.Codec.toMidiByte n).getD 0
       | none => 72                                                   -- MidiNote.from_string("C4").to_midi_byte()
-    some { period := samplePeriod rate, note := base + noteOff, fraction := frac,
+    -- the unity note is clamped to the MIDI range 0..127 (fix 15: a low root note with a large negative tuning)
+    let raw := base + noteOff
+    let clamped : Int := if raw < 0 then 0 else if raw > 127 then 127 else raw
+    some { period := samplePeriod rate, note := clamped, fraction := frac,
            loops := loopHeaders rate 0 g.loops }
 
 def metaOf (g : GenSample) : Meta :=
